@@ -17,7 +17,9 @@
 (* The caller performs enter, NUpdates updates and then either exit        *)
 (* (normal return or an exception inside a with-block / try-finally) or    *)
 (* nothing (Abort: an exception in an API that calls enter()/exit() by     *)
-(* hand).                                                                  *)
+(* hand).  With OutFail every redraw may raise: in update() the exception  *)
+(* leaves the with-block, so exit() runs; in exit() it ends the call; in a *)
+(* callback thread it ends that thread.                                    *)
 (***************************************************************************)
 EXTENDS Naturals, Integers, Sequences, FiniteSets, Json, TLC
 
@@ -25,6 +27,9 @@ CONSTANTS Protocol,     \* "asis" | "locked"
           NUpdates,     \* number of caller updates
           MaxTimers,    \* bound on timers ever created
           AbortModes,   \* subset of {"none", "exit", "noexit"}: how the caller ends
+          OutFail,      \* TRUE: any write to the output stream may raise (closed stream, broken pipe, bad format)
+          ExitOrder,    \* "stop-first" (the code): exit() stops and cancels, then redraws;
+                        \* "print-first" (named deviation): exit() redraws, then stops and cancels
           Emit
 
 Threads == 0..MaxTimers           \* 0 = caller, i = callback thread of timer i
@@ -114,6 +119,17 @@ DoPrint(th, next) ==
     /\ Log(th, "print")
     /\ UNCHANGED <<tstate, tkind, field, ntimers, tmp, lock, stopped, updates, abort>>
 
+\* the redraw raises (OutFail): where control goes depends on who was drawing
+FailPrint(th, next) ==
+    /\ OutFail
+    /\ Goto(th, next)
+    /\ Log(th, "print_fail")
+    /\ UNCHANGED <<tstate, tkind, field, ntimers, tmp, lock, stopped, updates, abort, late>>
+
+PrintFirst == ExitOrder = "print-first"
+ExitBody == IF Locked THEN "x_acq" ELSE "x_cancel"
+ExitEntry == IF PrintFirst THEN "x_print" ELSE ExitBody
+
 \* --- the body of update(), executed by the caller (th = 0) or a callback thread ---------
 UpdateBody(th, after) ==
     \/ /\ pc[th] = "u_acq" /\ Acquire(th, "u_chk")
@@ -126,6 +142,7 @@ UpdateBody(th, after) ==
     \/ /\ pc[th] = "u_start" /\ StartField(th, IF Locked THEN "u_rel" ELSE "u_print")
     \/ /\ pc[th] = "u_rel" /\ Release(th, "u_print")
     \/ /\ pc[th] = "u_print" /\ DoPrint(th, after)
+    \/ /\ pc[th] = "u_print" /\ FailPrint(th, IF th = 0 THEN ExitEntry ELSE "finished")
 
 UpdateEntry == IF Locked THEN "u_acq" ELSE "u_cancel"
 
@@ -141,7 +158,7 @@ Caller ==
              /\ Goto(0, UpdateEntry) /\ Log(0, "call_update")
              /\ UNCHANGED <<tstate, tkind, field, ntimers, tmp, lock, stopped, abort, late>>
           \/ /\ (updates = NUpdates /\ abort = "none") \/ abort = "exit"     \* normal end, or exception with exit
-             /\ Goto(0, IF Locked THEN "x_acq" ELSE "x_cancel") /\ Log(0, "call_exit")
+             /\ Goto(0, ExitEntry) /\ Log(0, "call_exit")
              /\ UNCHANGED <<tstate, tkind, field, ntimers, tmp, lock, stopped, updates, abort, late>>
           \/ /\ abort = "noexit"                                            \* exception, exit() never called
              /\ Goto(0, "done") /\ Log(0, "raise")
@@ -151,9 +168,10 @@ Caller ==
     \/ /\ pc[0] = "x_stop"
        /\ stopped' = TRUE /\ Goto(0, "x_cancel") /\ Log(0, "stop")
        /\ UNCHANGED <<tstate, tkind, field, ntimers, tmp, lock, updates, abort, late>>
-    \/ /\ pc[0] = "x_cancel" /\ CancelField(0, IF Locked THEN "x_rel" ELSE "x_print")
-    \/ /\ pc[0] = "x_rel" /\ Release(0, "x_print")
-    \/ /\ pc[0] = "x_print" /\ DoPrint(0, "done")
+    \/ /\ pc[0] = "x_cancel" /\ CancelField(0, IF Locked THEN "x_rel" ELSE (IF PrintFirst THEN "done" ELSE "x_print"))
+    \/ /\ pc[0] = "x_rel" /\ Release(0, IF PrintFirst THEN "done" ELSE "x_print")
+    \/ /\ pc[0] = "x_print" /\ DoPrint(0, IF PrintFirst THEN ExitBody ELSE "done")
+    \/ /\ pc[0] = "x_print" /\ FailPrint(0, "done")
 
 (***************************************************************************)
 (* Timers fire; callback threads                                            *)
@@ -167,6 +185,7 @@ Fire(t) ==
 
 Callback(t) ==
     \/ /\ pc[t] = "p_print" /\ DoPrint(t, "finished")
+    \/ /\ pc[t] = "p_print" /\ FailPrint(t, "finished")
     \/ UpdateBody(t, "finished")
 
 Next == Caller \/ (\E t \in 1..MaxTimers : Fire(t) \/ Callback(t))
